@@ -647,7 +647,34 @@ impl<'a> Gen<'a> {
                 v.to_string()
             }
         };
-        match self.rng.below(16) {
+        match self.rng.below(21) {
+            16 => {
+                // range() with bounds and step at the edges of i128 (length arithmetic); `| length`
+                // so that a legal 100 000-element result costs nothing to print. Only constants
+                // and plain names: at most one argument may fail to evaluate.
+                let vis = env.ctx_visible;
+                let e = self.rng.pick(&["n_big", "n_big", "n_edge", "0", "(0 - 1)", "n_int"]);
+                let s0 = self.rng.pick(&["", "", "n_big", "n_edge", "0", "(0 - 1)"]);
+                let t = self.rng.pick(&["", "(0 - 1)", "(0 - 1)", "1", "2", "n_big", "0", "-1"]);
+                let fix = |v: &str| if !vis && v.starts_with("n_") { "7".to_string() } else { v.to_string() };
+                let mut args = vec![format!("end={}", fix(e))];
+                if !s0.is_empty() {
+                    args.push(format!("start={}", fix(s0)));
+                }
+                if !t.is_empty() {
+                    args.push(format!("step_by={}", fix(t)));
+                }
+                format!("range({}) | length", args.join(", "))
+            }
+            17 => format!("{} | join(sep={})", self.atom_p(env, Kind::ArrAny), self.rng.pick(&["\"\"", "\"\u{e9}\"", "1", "none", "\", \"", "[1]"])),
+            18 => format!("{} | get(key={}, default={})", self.atom_p(env, Kind::Map), self.rng.pick(&["\"k0\"", "\"\"", "0", "1", "true", "none", "\"a.b\"", "1.5"]), int(self)),
+            19 => format!(
+                "{} | {}(attribute={}) | length",
+                self.atom_p(env, self.rng.pick(&[Kind::ArrUser, Kind::ArrAny, Kind::ArrInt])),
+                self.rng.pick(&["sort", "unique", "group_by"]),
+                self.rng.pick(&["\"name\"", "\"age\"", "\"tags\"", "\"\"", "\"a.b\"", "\"name.x\"", "\".\"", "\"\u{e9}\"", "\"active\"", "\"tags.0\""])
+            ),
+            20 => format!("{} is {}", int(self), self.rng.pick(&["odd", "even", "divisible_by(divisor=(0 - 1))", "divisible_by(divisor=0)"])),
             0 => format!("{} | truncate(length={}, end={})", st(self), int(self), st(self)),
             1 => format!("{} | indent(width={}, first=true, blank=true)", st(self), int(self)),
             2 => format!("{} | round(precision={}, method={})", self.atom_p(env, Kind::Float), int(self), self.rng.pick(&["\"common\"", "\"ceil\"", "\"floor\"", "\"nope\""])),
